@@ -23,6 +23,8 @@ Decides:
  M absent rows     every default-supplying wrapper reacts to NoEnv / Missing (rows of the K3 table, shared with C06).
  R3 loop exits        whether collect / many / some / .. go round again never depends on State::is_empty() or positions: an env-backed item succeeds
                   without consuming anything (shared with C06).
+ F converse        ParseFlag::eval: every outcome other than Ok(present) lies behind the "no declared variable set" edge (req_flag included);
+ P unfiltered      the Option the environment lookup returns reaches the presence decision without an adaptor (an empty value is a value).
 Does not decide: behaviour of the wrappers around an env-backed item (C06)."""
 import re
 from core import *
